@@ -12,6 +12,24 @@ import tempfile
 VERIF = os.path.dirname(os.path.dirname(os.path.abspath(__file__)))
 
 
+def rebase_patch(wt, patch):
+    """The patch no longer applies textually to /repo HEAD (a later fix touched nearby lines): try a 3-way merge
+    in the scratch worktree; on success return the path of the equivalent patch against HEAD."""
+    import subprocess as sp
+
+    r = sp.run(["git", "-C", wt, "apply", "--3way", patch], capture_output=True, text=True)
+    unmerged = sp.run(["git", "-C", wt, "diff", "--name-only", "--diff-filter=U"], capture_output=True, text=True).stdout.strip()
+    out = None
+    if r.returncode == 0 and not unmerged:
+        d = sp.run(["git", "-C", wt, "diff", "HEAD"], capture_output=True, text=True).stdout
+        if d.strip():
+            os.makedirs(os.path.join(wt, ".tmp"), exist_ok=True)
+            out = os.path.join(wt, ".tmp", "rebased.diff")
+            open(out, "w").write(d)
+    sp.run(["git", "-C", wt, "reset", "-q", "--hard"], capture_output=True)
+    return out
+
+
 def main():
     args = sys.argv[1:]
     tier = "quick"
@@ -34,6 +52,10 @@ def main():
     ok = False
     for base in ("HEAD", "8bb5fbf", "5450e19", "22a8020"):
         subprocess.run(["git", "-C", "/repo", "worktree", "add", "-q", "--detach", wt, base], check=True)
+        rb = rebase_patch(wt, patch) if base == "HEAD" and subprocess.run(["git", "-C", wt, "apply", "--check", patch], capture_output=True).returncode != 0 else None
+        if rb:
+            patch = rb
+            print("(patch merged 3-way onto /repo HEAD)")
         if subprocess.run(["git", "-C", wt, "apply", "--check", patch], capture_output=True).returncode == 0:
             ok = True
             if base != "HEAD":
